@@ -614,6 +614,39 @@ pub fn c04(rec: &mut Rec, rng: &mut Rng, thorough: bool) {
             }
         }
     }
+    // a body of exactly (or just below) the limit followed by a pipelined request in the same reads: both are delivered
+    // (the limit is about the declared length, not about how many bytes a read happens to carry)
+    for &l in &[1usize, 5, 48, 1023, 1024, 1500, 51200] {
+        for dn in [0usize, 1, 3] {
+            if dn > l {
+                continue;
+            }
+            let n = l - dn;
+            rec.case("payload-at-limit-pipelined");
+            rec.nontrivial();
+            let mut d = ConnDriver::new(rec, l);
+            let body = gen::body_bytes(rng, n);
+            let mut stream = format!("PUT /x HTTP/1.1\r\nContent-Length: {}\r\n\r\n", n).into_bytes();
+            stream.extend_from_slice(&body);
+            let boundary = stream.len();
+            stream.extend_from_slice(b"GET /next HTTP/1.1\r\nX-Pad: pppppppppppppppppppppppppppppppppppppp\r\n\r\n");
+            // cuts anywhere but at the body / next-request boundary
+            let cuts: Vec<usize> = gen::cuts(rng, &stream, 3).into_iter().filter(|c| *c != boundary).collect();
+            let mut errs = vec![];
+            for ch in gen::split_at_cuts(&stream, &cuts) {
+                for r in d.recv(rec, &ch, 0) {
+                    if r.starts_with("parse(") {
+                        errs.push(r);
+                    }
+                }
+            }
+            let del = d.popall(rec);
+            let ok = errs.is_empty() && del.len() == 2 && (n == 0 || del[0].text_nofiles.contains(&format!("body={} ", hx(&body))));
+            if !ok {
+                rec.oracle_fail("C04", &format!("L={} n={} followed by a pipelined request: errors {:?}, {} requests delivered", l, n, errs, del.len()), &d.log);
+            }
+        }
+    }
     // the default limit (a connection on which set_payload_max_size is never called): 0.05 MiB = 51200
     for n in [51199u64, 51200, 51201, 60000] {
         rec.case("payload-limit-default");
@@ -719,6 +752,33 @@ pub fn c06(rec: &mut Rec, rng: &mut Rng, thorough: bool) {
                     d.clear(rec);
                     expected.clear();
                     accepted.clear();
+                }
+                8 if i % 2 == 1 => {
+                    // input arrives while output is queued (no Expect header, so the read itself queues nothing): a
+                    // delivered request, a rejected one, would-block, end of stream — none of them may touch the output side
+                    let had = d.pending_write();
+                    match rng.below(5) {
+                        0 => {
+                            d.recv(rec, b"GET /in HTTP/1.1\r\n\r\n", 0);
+                        }
+                        1 => {
+                            d.recv(rec, b"BOGUS /in HTTP/1.1\r\n\r\n", 0);
+                        }
+                        2 => {
+                            d.recv(rec, b"PUT /in HTTP/1.1\r\nContent-Length: abc\r\n\r\n", 0);
+                        }
+                        3 => {
+                            d.recv(rec, b"GET /partial HTT", 0);
+                        }
+                        _ => {
+                            d.recv(rec, b"GET /a HTTP/1.1\r\n\r\nGARBAGE\r\n", 0);
+                        }
+                    }
+                    d.popall(rec);
+                    if d.pending_write() != had {
+                        rec.oracle_fail("C06", &format!("a read changed pending_write from {} to {} although no write failed", had, d.pending_write()), &d.log);
+                    }
+                    rec.count("c06:read-interleaved");
                 }
                 _ => {
                     let unsent = expected.len().saturating_sub(accepted.len());
